@@ -1356,6 +1356,7 @@ impl<'a> Exec<'a> {
             let bytes = if rep.elem_size == 0 { 0 } else { bytes };
             let bound = bytes + (rep.elem_align - 1) + (cfg.min_align - 1);
             let mut advanced_chunks = 0;
+            let mut d9: Option<String> = None;
             for (k, c) in end.chunks.iter().enumerate() {
                 let entry_pos = match before.chunks.get(k) {
                     Some(b) if b.0 == c.0 => b.3,
@@ -1371,8 +1372,15 @@ impl<'a> Exec<'a> {
                 if adv != 0 {
                     advanced_chunks += 1;
                     if adv > bound {
+                        // D9 (known finding): upwards, `alloc_try_with_mut` leaves the part of the `Result<T, E>` slot
+                        // that precedes the value (the discriminant) allocated
+                        if spec.kind == MutKind::TryWithMut && cfg.up && rep.slot_size > rep.elem_size && adv <= bound + (rep.slot_size - rep.elem_size) {
+                            // reported last, so that every other oracle still judges this history
+                            d9 = Some(format!("alloc_try_with_mut slot waste: {:?}: returning Ok advanced the position of chunk {k} by {adv} bytes for {bytes} bytes of contents (padding bound {}, Result slot {} bytes)", spec, bound - bytes, rep.slot_size));
+                        } else {
                         viol!(self, g, "{:?}: finalising advanced the position of chunk {k} by {adv} bytes, more than contents {bytes} + padding bound {}", spec, bound - bytes);
                         return;
+                        }
                     }
                     // the result must be the memory the position moved over
                     if blk.len > 0 {
@@ -1400,6 +1408,9 @@ impl<'a> Exec<'a> {
             let b = self.new_block(blk.ptr, blk.len, blk.align, 0);
             unsafe { fill(&b) };
             self.model.last_returned = None;
+            if let Some(m) = d9 {
+                viol!(self, g, "{m}");
+            }
         }
     }
 
